@@ -81,6 +81,18 @@ def run(ctx, prop, bias):
     cfg = "AttackTrace%s.cfg" % prop
     n, nev, rej = core.validate_cases(ctx, "attack", "AttackTrace", cfg, None, cases=cases + stop_cases + rt_cases, nshards=core.NCPU)
     report_rejections(ctx, rej, signature, "attack trace rejected by AttackContract clauses of " + prop)
+    # 5. implementation layer (model drift, never a verdict): the runs of the TLC-exported scripts must also be behaviours of
+    #    Attack.tla itself, with its internal actions as silent steps (AttackImplTrace.tla)
+    drift_cases = 0
+    if not ctx.violations and prop in ("C02", "C03"):
+        small = [c for c in cases if '"script":"{' in c[1][0] and int(json.loads(c[1][0]).get("id", 1 << 30)) < summ["exported"]]
+        if not ctx.thorough:
+            small = small[::4]
+        drift_cases, _, drej = core.validate_cases(ctx, "attack", "AttackImplTrace", "AttackImplTrace.cfg", None, cases=small, nshards=core.NCPU,
+                                                   prefix="impl", deque=True, max_reject=2)
+        for start, lines, off in drej[:5]:
+            ctx.drift.append("run not a behaviour of Attack.tla at event %d %s of %s" % (off, lines[off - 1].strip()[:120], signature(lines, off)[:200]))
+    ctx.coverage["runs_validated_against_implementation_shaped_spec"] = drift_cases
     ctx.coverage.update({
         "traces_validated_against_impl": n, "trace_events": nev,
         "scripts_exported_by_tlc_run": summ["exported"], "random_scripts": summ["random"], "long_random_runs": summ["big"],
